@@ -94,8 +94,12 @@ class Ref:
             s.demands.append(Demand((0,) * s.depth, [('init',)]))
 
     def initial_event(self, sid, t):
+        # the statement lists time 0 of time-based / hybrid simulators AND initial events: an initial event adds a demand, it does not
+        # replace the ones already there (several initial events for one simulator are several demands)
         s = self.sims[sid]
-        s.demands = [Demand(self.zeros(s, t), [('init',)])]
+        tau = self.zeros(s, t)
+        if not any(d.tau == tau for d in s.demands):
+            s.demands.append(Demand(tau, [('init',)]))
 
     def add_conn(self, ss, se, sa, ds, de, da, k=0, weak=False, initial=SENT, persistent=True, trigger=False,
                  lenient=False, async_only=False):
